@@ -93,6 +93,9 @@ StartState(s) ==
   CASE s = "lib-absent" -> [f \in Files |-> IF f = "root" THEN "R1" ELSE ABSENT]
     [] s = "all-present" -> [root |-> "R6", lib |-> "L2", sig |-> "S2", oth |-> "O2"]
     [] s = "companion-mismatch" -> [root |-> "R1", lib |-> "L1", sig |-> "S2", oth |-> ABSENT]
+    \* nothing on disk: the harness does not even create the files' directory; it appears with the first disk write
+    \* (paths with two missing components; an overlay set before the directory exists must survive its appearance)
+    [] s = "nothing" -> [f \in Files |-> ABSENT]
 Init == /\ start \in Starts /\ disk = StartState(start)
         /\ overlay = [f \in Files |-> NONE] /\ hist = << >> /\ pend = NoOp
 
